@@ -146,6 +146,10 @@ impl Context {
 //@@ safety C12 C05
 //@@ ret r
 //@@ header-from specs/ctx/parent_input.spec
+//@@ insert-after ".unwrap_or_else(||"
+ -> (q: &Rc<JsonValue>) ensures **q == self.inp(), {
+//@@ insert-after ".unwrap_or_else(|| self.input()"
+ }
 //@@ endfn
 
 //@@ fn ctx.get_variable_value = src/processor.rs :: impl Context :: fn get_variable_value
